@@ -497,12 +497,43 @@ func (w *vWorld) retaint(n *vNode, class int, taintAge int64) {
 	switch class {
 	case tcEsc:
 		obj.Spec.Taints = []v1.Taint{esc}
+	case tcEscGarbage:
+		esc.Value = "garbage"
+		obj.Spec.Taints = []v1.Taint{esc}
+	case tcEscEmpty:
+		esc.Value = ""
+		obj.Spec.Taints = []v1.Taint{esc}
 	case tcForce:
 		obj.Spec.Taints = []v1.Taint{force}
 	case tcEscAndForce:
 		obj.Spec.Taints = []v1.Taint{esc, force}
+	case tcForeign:
+		obj.Spec.Taints = []v1.Taint{{Key: "example.com/other", Value: "1", Effect: v1.TaintEffectNoExecute}}
 	}
 	n.obj = obj
+}
+
+// movePod re-places a pod between scans.
+func (w *vWorld) movePod(p *vPod, node int, daemon bool) {
+	if p.node >= 0 && !p.daemon && w.nodes[p.node].group == p.group {
+		w.nodes[p.node].groupPods--
+	}
+	obj := *p.obj
+	obj.Spec.NodeName = ""
+	switch {
+	case node >= 0:
+		obj.Spec.NodeName = w.nodes[node].name
+	case node == -2:
+		obj.Spec.NodeName = "ghost"
+	}
+	obj.OwnerReferences = nil
+	if daemon {
+		obj.OwnerReferences = []metav1.OwnerReference{{Kind: "DaemonSet", Name: "ds"}}
+	}
+	p.obj, p.node, p.daemon = &obj, node, daemon
+	if node >= 0 && !daemon && w.nodes[node].group == p.group {
+		w.nodes[node].groupPods++
+	}
 }
 
 // setPodCPU replaces a pod's CPU request (pods come and go between scans).
